@@ -263,6 +263,12 @@ def run(ctx):
             ctx.rules.pop(r)
     ctx.ob(R7, "urllib3.response.HTTPResponse", f"{len(ctx.obs) - before} shared obligations (C01-R5, C01-R6)", True)
 
+    rule_r8(ctx)
+
+
+def rule_r8(ctx):
+    """C03-R8 (shared with C13): an early release never recycles a connection with an unread body."""
+    m = ctx.model
     # ------------------------------------------------------------------ R8 an early release never recycles a connection with an unread body (F15)
     R8 = ctx.rule("C03-R8", "released early: on every path of HTTPResponse.release_conn that gives the connection back, the body is known to be complete (the stdlib response reports closed, or nothing is left to read, or there is no wrapped response) - or the connection was closed first; otherwise the rest of a partially read body answers the next request on that connection", "E4 on release_conn")
     from .c01_more import RespRule, _resp_seeds
